@@ -5,7 +5,8 @@
    space of each tool, lifted to universally quantified statements; the domain bound is the wf_* predicate).
    Envelope codes: e_vs 1 VALIDATED / 2 UNVALIDATED / 3 INVALID; e_valid 0 absent / 1 True / 2 False;
    e_verrs 1 empty / 2 non-empty; e_vcount 2 positive; e_status 1 success / 2 error; e_echo = status printed by the CLI. *)
-From OV Require Import Base.Strs Tools.EnvelopeSyntax Gen.StatusGen Tools.Envelope Tools.EnvelopeFacts.
+From OV Require Import Base.Strs Tools.EnvelopeSyntax Gen.StatusGen Tools.Envelope Tools.EnvelopeFacts Tools.EnvelopePins.
+From Coq Require Import String.
 Open Scope N_scope.
 
 (* ---------------------------------------------------------------------------------------------------------- *)
@@ -144,3 +145,26 @@ Proof. exact cli_validate_validated_sound_refuted. Qed.
 Theorem C10_cli_write_line_and_exit : forall f, wf_cw f -> exists e, cli_write_env f = Some e /\
   cwc_line f e && cwc_noline f e && cwc_sound f e && cwc_invalid f e && cwc_exc f e = true.
 Proof. exact cli_write_line_and_exit. Qed.
+
+(* ---------------------------------------------------------------------------------------------------------- *)
+(* pins: the literals of /repo behind the fact encodings (profiles, formats, schema-name guard, builtin dict schemas),
+   and: every regenerated table compiles against the atom dictionary (no source test the model does not know) *)
+Theorem C10_pin_valid_profiles : status_valid_profiles = [s2l "LENIENT"; s2l "STANDARD"; s2l "STRICT"; s2l "ULTRA"].
+Proof. exact pin_valid_profiles. Qed.
+Theorem C10_pin_default_profile : status_default_profile = s2l "STANDARD".
+Proof. exact pin_default_profile. Qed.
+Theorem C10_pin_valid_formats : status_valid_formats = [s2l "gbnf"; s2l "json_schema"].
+Proof. exact pin_valid_formats. Qed.
+Theorem C10_pin_schema_name_pattern : status_schema_name_pattern = s2l "^[A-Z][A-Z0-9_]*$".
+Proof. exact pin_schema_name_pattern. Qed.
+Theorem C10_pin_loader_name_guard : status_loader_name_guard = s2l "not SCHEMA_NAME_PATTERN.match(schema_name)".
+Proof. exact pin_loader_name_guard. Qed.
+Theorem C10_pin_get_builtin_return : status_get_builtin_return = s2l "BUILTIN_SCHEMA_DEFINITIONS.get(schema_name)".
+Proof. exact pin_get_builtin_return. Qed.
+Theorem C10_pin_builtin_named : forallb (fun e => snd (fst e) && snd e) status_builtin_dict_schemas = true.
+Proof. exact pin_builtin_named. Qed.
+Theorem C10_pin_tables_compile :
+  (if validate_compiled then true else false) && (if write_compiled then true else false) &&
+  (if eject_compiled then true else false) && (if grammar_compiled then true else false) &&
+  (if cli_validate_compiled then true else false) && (if cli_write_compiled then true else false) = true.
+Proof. exact pin_tables_compile. Qed.
